@@ -28,6 +28,8 @@ import (
 	"fmt"
 	"go/ast"
 	"go/token"
+	"os"
+	"path/filepath"
 	"sort"
 	"strings"
 )
@@ -162,70 +164,60 @@ func genC15Shared(ctx *Ctx) string {
 				}
 			}
 		}
-		// package-level variable writes outside init()
-		for _, fd := range funcs {
-			if fd.Recv == nil && fd.Name.Name == "init" {
+		pkgVarWrites = append(pkgVarWrites, c15PkgVarWrites(p, pk.name, pkgVars, funcs)...)
+	}
+	// …and in every other library package a search or a batch runs through
+	extra := []string{"search/searcher", "search/collector", "search/highlight", "index", "index/mergeplan"}
+	for _, root := range []string{"analysis", "numeric"} {
+		_ = filepath.WalkDir(filepath.Join(ctx.Repo, root), func(path string, d os.DirEntry, err error) error {
+			if err == nil && d.IsDir() {
+				if rel, e := filepath.Rel(ctx.Repo, path); e == nil {
+					extra = append(extra, filepath.ToSlash(rel))
+				}
+			}
+			return nil
+		})
+	}
+	sort.Strings(extra)
+	var scanned []string
+	for _, pk := range pkgs {
+		scanned = append(scanned, pk.name)
+	}
+	for _, rel := range extra {
+		p := ctx.ParseDir(rel)
+		if len(p.Files) == 0 {
+			continue
+		}
+		scanned = append(scanned, rel)
+		pkgVars := map[string]bool{}
+		var funcs []*ast.FuncDecl
+		var fnames []string
+		for n := range p.Files {
+			fnames = append(fnames, n)
+		}
+		sort.Strings(fnames)
+		for _, n := range fnames {
+			if strings.HasSuffix(n, "_windows.go") {
 				continue
 			}
-			name := fd.Name.Name
-			if fd.Recv != nil && len(fd.Recv.List) == 1 {
-				t := fd.Recv.List[0].Type
-				if s, ok := t.(*ast.StarExpr); ok {
-					t = s.X
-				}
-				if id, ok := t.(*ast.Ident); ok {
-					name = id.Name + "." + name
-				}
-			}
-			local := map[string]bool{}
-			ast.Inspect(fd, func(n ast.Node) bool {
-				switch x := n.(type) {
-				case *ast.AssignStmt:
-					if x.Tok == token.DEFINE {
-						for _, l := range x.Lhs {
-							if id, ok := l.(*ast.Ident); ok {
-								local[id.Name] = true
+			for _, d := range p.Files[n].Decls {
+				switch x := d.(type) {
+				case *ast.GenDecl:
+					if x.Tok == token.VAR {
+						for _, sp := range x.Specs {
+							for _, id := range sp.(*ast.ValueSpec).Names {
+								pkgVars[id.Name] = true
 							}
 						}
 					}
-				case *ast.ValueSpec:
-					for _, id := range x.Names {
-						local[id.Name] = true
+				case *ast.FuncDecl:
+					if x.Body != nil {
+						funcs = append(funcs, x)
 					}
-				case *ast.Field:
-					for _, id := range x.Names {
-						local[id.Name] = true
-					}
-				case *ast.RangeStmt:
-					if x.Tok == token.DEFINE {
-						for _, e := range []ast.Expr{x.Key, x.Value} {
-							if id, ok := e.(*ast.Ident); ok {
-								local[id.Name] = true
-							}
-						}
-					}
-				}
-				return true
-			})
-			hit := func(e ast.Expr) {
-				if id, _ := c15RootIdent(e); id != nil && pkgVars[id.Name] && !local[id.Name] {
-					pkgVarWrites = append(pkgVarWrites, pk.name+":"+name+":"+strings.ReplaceAll(p.Src(e), " ", ""))
 				}
 			}
-			ast.Inspect(fd.Body, func(n ast.Node) bool {
-				switch x := n.(type) {
-				case *ast.AssignStmt:
-					if x.Tok != token.DEFINE {
-						for _, l := range x.Lhs {
-							hit(l)
-						}
-					}
-				case *ast.IncDecStmt:
-					hit(x.X)
-				}
-				return true
-			})
 		}
+		pkgVarWrites = append(pkgVarWrites, c15PkgVarWrites(p, rel, pkgVars, funcs)...)
 	}
 	sort.Slice(writes, func(i, j int) bool {
 		a, b := writes[i], writes[j]
@@ -257,11 +249,16 @@ func genC15Shared(ctx *Ctx) string {
 	for i, s := range pkgVarWrites {
 		fmt.Fprintf(&b, "%s%s", LeanStr(s), c15Comma(i, len(pkgVarWrites)))
 	}
+	b.WriteString("]\n\n/-- the packages scanned for `pkgVarWrites` -/\ndef pkgVarPackages : List String := [")
+	for i, s := range scanned {
+		fmt.Fprintf(&b, "%s%s", LeanStr(s), c15Comma(i, len(scanned)))
+	}
 	b.WriteString("]\n\nend BlugeGen.C15Shared\n")
 	ctx.Summary["shared_definition_types"] = len(defTypes)
 	ctx.Summary["shared_receiver_writes"] = len(writes)
 	ctx.Summary["shared_receiver_writes_not_builder"] = nNon
 	ctx.Summary["shared_pkgvar_writes"] = pkgVarWrites
+	ctx.Summary["shared_pkgvar_packages"] = len(scanned)
 	return b.String()
 }
 
@@ -370,5 +367,79 @@ func c15ReceiverWrites(p *Pkg, fd *ast.FuncDecl, rv string, byValue bool) []stri
 		return true
 	})
 	sort.Strings(out)
+	return out
+}
+
+// c15PkgVarWrites: `package:function:target` for every write to a package-level variable outside init():
+// assignment (incl. `v = append(v, …)`, `v[k] = x`, `v.f = x`), inc/dec, delete(v, k), copy(v, …).
+func c15PkgVarWrites(p *Pkg, pkgName string, pkgVars map[string]bool, funcs []*ast.FuncDecl) []string {
+	var out []string
+	for _, fd := range funcs {
+		if fd.Recv == nil && fd.Name.Name == "init" {
+			continue
+		}
+		name := fd.Name.Name
+		if fd.Recv != nil && len(fd.Recv.List) == 1 {
+			t := fd.Recv.List[0].Type
+			if s, ok := t.(*ast.StarExpr); ok {
+				t = s.X
+			}
+			if id, ok := t.(*ast.Ident); ok {
+				name = id.Name + "." + name
+			}
+		}
+		local := map[string]bool{}
+		ast.Inspect(fd, func(n ast.Node) bool {
+			switch x := n.(type) {
+			case *ast.AssignStmt:
+				if x.Tok == token.DEFINE {
+					for _, l := range x.Lhs {
+						if id, ok := l.(*ast.Ident); ok {
+							local[id.Name] = true
+						}
+					}
+				}
+			case *ast.ValueSpec:
+				for _, id := range x.Names {
+					local[id.Name] = true
+				}
+			case *ast.Field:
+				for _, id := range x.Names {
+					local[id.Name] = true
+				}
+			case *ast.RangeStmt:
+				if x.Tok == token.DEFINE {
+					for _, e := range []ast.Expr{x.Key, x.Value} {
+						if id, ok := e.(*ast.Ident); ok {
+							local[id.Name] = true
+						}
+					}
+				}
+			}
+			return true
+		})
+		hit := func(e ast.Expr) {
+			if id, _ := c15RootIdent(e); id != nil && pkgVars[id.Name] && !local[id.Name] {
+				out = append(out, pkgName+":"+name+":"+strings.ReplaceAll(p.Src(e), " ", ""))
+			}
+		}
+		ast.Inspect(fd.Body, func(n ast.Node) bool {
+			switch x := n.(type) {
+			case *ast.AssignStmt:
+				if x.Tok != token.DEFINE {
+					for _, l := range x.Lhs {
+						hit(l)
+					}
+				}
+			case *ast.IncDecStmt:
+				hit(x.X)
+			case *ast.CallExpr:
+				if id, ok := x.Fun.(*ast.Ident); ok && (id.Name == "delete" || id.Name == "copy") && len(x.Args) > 0 {
+					hit(x.Args[0])
+				}
+			}
+			return true
+		})
+	}
 	return out
 }
